@@ -133,8 +133,74 @@ func faultsCase(c *Case, lean *LeanDriver) Verdict {
 			return v
 		}
 	}
+	// a lagging consumer: one select's iterators are slow, another select's iterator fails
+	// late - its producer goroutine is then ahead of the consumer, with its buffer full
+	if msg := laggingFaults(c, clean, r, false); msg != "" {
+		v.Other = msg
+		return v
+	}
 	v.Steps = tried
 	return v
+}
+
+// laggingFaults runs the query with the iterators of one Select slowed down and a failure (or a
+// panic value, recovered by the engine) in a late iterator event of another Select.
+func laggingFaults(c *Case, clean Result, r *rand.Rand, panics bool) string {
+	dry := NewMemStorage(c.Data())
+	perSel := map[int]int{}
+	var mu sync.Mutex
+	dry.SetHook(func(kind string, n int64, info any) Action {
+		if ii, ok := info.(ItInfo); ok {
+			mu.Lock()
+			perSel[ii.Sel]++
+			mu.Unlock()
+		}
+		return Action{}
+	})
+	execThanos(c, dry)
+	if len(perSel) < 2 {
+		return ""
+	}
+	var sels []int
+	for s := range perSel {
+		sels = append(sels, s)
+	}
+	sort.Ints(sels)
+	for attempt := 0; attempt < 3; attempt++ {
+		victim := sels[r.Intn(len(sels))]
+		total := perSel[victim]
+		if total < 4 {
+			continue
+		}
+		at := total/2 + r.Intn(total/2)
+		st := NewMemStorage(c.Data())
+		var seen, injected int32
+		st.SetHook(func(kind string, n int64, info any) Action {
+			ii, ok := info.(ItInfo)
+			if !ok {
+				return Action{}
+			}
+			if ii.Sel != victim {
+				time.Sleep(150 * time.Microsecond)
+				return Action{}
+			}
+			if int(atomic.AddInt32(&seen, 1)) >= at && atomic.CompareAndSwapInt32(&injected, 0, 1) {
+				if panics {
+					return Action{Panic: "injected panic (string) in a late iterator event"}
+				}
+				return Action{Err: errInjected}
+			}
+			return Action{}
+		})
+		res := execThanos(c, st)
+		if atomic.LoadInt32(&injected) == 0 {
+			continue
+		}
+		if res.Kind != "err" {
+			return fmt.Sprintf("storage failure in iterator event %d of select #%d while the other selects lag: the query succeeded with %d series", at, victim, len(res.Series))
+		}
+	}
+	return ""
 }
 
 // ---------------------------------------------------------------------------------------------
@@ -573,6 +639,19 @@ func seqCase(c *Case, lean *LeanDriver) Verdict {
 			steps++
 			d := c.clone()
 			d.Query = qs
+			if round == 1 {
+				// the same query text again, at another evaluation time: nothing that was
+				// computed for the first window may be reused
+				shift := d.Step
+				if shift == 0 {
+					shift = 15000
+				}
+				shift *= int64(1 + r.Intn(20))
+				d.Start += shift
+				if !d.Instant() {
+					d.End += shift
+				}
+			}
 			// per-query options must not outlive their query
 			switch r.Intn(4) {
 			case 0:
